@@ -935,5 +935,11 @@ def update_fixpoint(ctx):
     return res
 
 
+# META update: declined clause 'bounds honoured by scipy' re-worded
+META['declined'] = [
+    'bounds honoured inside scipy for the methods that support them (that no method which ignores bounds is run on a bounded problem is decided: BOUNDS-HONOURED)' if _d.startswith('bounds honoured by scipy') else _d
+    for _d in META['declined']]
+
+
 RULES = [update_fixpoint, bounds_honoured, index_edit, c17_coating_media, c01_init_stores, c01_pickup, operand_chain, apply_result, push_before_run, undo_updates, merit, scale_inverse,
          get_set_symmetry, var_dispatch, bounds_units]
